@@ -136,27 +136,31 @@ def verify_rule(ctx, r):
     facts = ctx.facts
     f = facts.fn(CORE + "::find_by_line_fast")
     eb = ExprBuilder(f)
-    arms, info = W.variant_arms(f, eb, lambda e: True if False else mentions_call(e, MATCHER + "::find_candidate_line"))
-    # the LineMatchKind switch
-    lm = [(bb, adt, missing, ow, live) for bb, adt, missing, ow, live in info if adt == "grep_matcher::LineMatchKind"]
-    if not lm or "Candidate" not in arms or "Confirmed" not in arms:
-        r.bad("arms", "anchor-missing: find_by_line_fast does not match on LineMatchKind::{Confirmed,Candidate}", fn=f)
-        return
     ism = [c for c in f.calls() if c.func.get("trait") == MATCHER and c.func["name"] == "is_match"]
-    if len(ism) != 1:
-        r.bad("is_match", "anchor-missing: expected one Matcher::is_match in find_by_line_fast", fn=f)
+    fcl = [c for c in f.calls() if c.func.get("trait") == MATCHER and c.func["name"] == "find_candidate_line"]
+    if len(ism) != 1 or not fcl:
+        r.bad("is_match", "anchor-missing: expected find_candidate_line and one Matcher::is_match in find_by_line_fast", fn=f)
         return
-    some_rets = [bb for bb, j, st in f.stmts() if st["k"] == "assign" and st["place"]["l"] == 0 and st["rv"]["k"] == "agg"
-                 and st["rv"].get("variant") == "Ok" and eb.operand(st["rv"]["ops"][0]).k == "agg"
-                 and eb.operand(st["rv"]["ops"][0])[2] == "Some"]
     hdrs = {h for _, h in C.back_edges(f)}
-    cand_region = C.reach(f, [arms["Candidate"]], stop_blocks=hdrs)
-    esc = C.all_paths_pass(f, [arms["Candidate"]], {ism[0].bb} | hdrs, [b for b in some_rets if b in cand_region])
-    if esc:
-        r.bad("candidate|verified", "a candidate line can be returned as a match without calling is_match on it", fn=f,
-              loc=f.blocks[esc[0]]["term"]["loc"], construct="Candidate")
+    # value table over one iteration of the scan: the matcher answers Candidate(3) / Confirmed(3), the terminator is CRLF or
+    # not, the line is inside the buffer, is_match (if it is asked) says no. A line that needs verification must then not be
+    # returned. Separate arms, merged arms with a `needs_verification` flag, a helper: the same table.
+    from ..flow import table, ret_set
+    res = {}
+    for row, sx in table(facts, f, calls={"Matcher::find_candidate_line": [V("Ok", V("Some", V("Candidate", I(3)))), V("Ok", V("Some", V("Confirmed", I(3))))],
+                                          "LineTerminator::is_crlf": [I(0), I(1)], "Matcher::is_match": [V("Ok", I(0))]},
+                         start=fcl[0].bb, stop_blocks=hdrs - {fcl[0].bb}):
+        kind = row[("call", "Matcher::find_candidate_line")][2][2][1]
+        crlf_ = row[("call", "LineTerminator::is_crlf")][1]
+        returned = any(v is not None and v[0] == "v" and v[1] == "Ok" and (v[2] is None or (v[2][0] == "v" and v[2][1] == "Some")) for v in ret_set(sx)) \
+            or (None in ret_set(sx))
+        asked = ism[0].bb in sx.exec_blocks
+        res[(kind, crlf_)] = (returned, asked)
+    bad_c = [k for k in (("Candidate", 0), ("Candidate", 1)) if res.get(k, (True, False))[0]]
+    if bad_c:
+        r.bad("candidate|verified", "a candidate line can be returned as a match without calling is_match on it", fn=f, construct="Candidate")
     else:
-        r.ok("candidate|verified", "every Some(line) return of the Candidate arm passes is_match", fn=f)
+        r.ok("candidate|verified", "a Candidate line whose is_match says no is never returned", fn=f)
     s = seed_after_call(f, ism[0], V("Ok", I(0)), stop_blocks=hdrs)
     rets = [b for b in s.exec_blocks if f.blocks[b]["term"]["k"] == "return"]
     if rets:
@@ -179,18 +183,16 @@ def verify_rule(ctx, r):
     # A Confirmed answer is a match of the regex somewhere in the buffer. With the two-byte CRLF terminator the regex can
     # match the empty string *between* CR and LF (\\B, or -w around a pattern that can be empty), which is not inside any
     # line's content: under CRLF a Confirmed line has to be verified on the stripped line as well.
-    crlf = cond_switches(f, lambda e: is_call(e, "grep_matcher::LineTerminator::is_crlf"), eb)
-    conf_region = C.reach(f, [arms["Confirmed"]], stop_blocks=hdrs)
-    direct = [b for b in some_rets if b in conf_region and
-              b in C.reach(f, [arms["Confirmed"]], stop_blocks=hdrs | {ism[0].bb})]
-    if not direct:
-        r.ok("confirmed|crlf", "every Confirmed line is verified with is_match", fn=f)
-    elif crlf and not guarded(f, direct, crlf, False):
-        r.ok("confirmed|crlf", "a Confirmed line is returned unverified only when the terminator is not CRLF", fn=f)
-    else:
+    if res.get(("Confirmed", 1), (True, False))[0]:
         r.bad("confirmed|crlf", "find_by_line_fast returns a Confirmed line without verifying it even under a CRLF terminator: an "
               "empty match between CR and LF (e.g. \\B, -w 'x*') reports the line although its content does not match",
               fn=f, construct="Confirmed")
+    elif not res.get(("Confirmed", 0), (False, False))[0] and not res.get(("Confirmed", 0), (False, True))[1]:
+        r.bad("confirmed|crlf", "anchor-missing: a Confirmed line is neither returned nor verified", fn=f)
+    elif res.get(("Confirmed", 0))[0]:
+        r.ok("confirmed|crlf", "a Confirmed line is returned unverified only when the terminator is not CRLF", fn=f)
+    else:
+        r.ok("confirmed|crlf", "every Confirmed line is verified with is_match", fn=f)
     s = seed_after_call(f, ism[0], V("Ok", I(1)), stop_blocks=hdrs)
     vals = {x for v in s.ret_values.values() for x in value_set(v)}
     if vals and all(v is not None and v[1] == "Ok" and v[2] is not None and v[2][1] == "Some" for v in vals):
